@@ -23,6 +23,10 @@ connection's command channel, exactly as `src/transport/tcp/connection.rs` and
   `AsyncWrite::poll_shutdown`, `Stage.heldHalf`) does not release it — a half-closed substream on which the
   protocol still reads the reply keeps the connection like any other.
 
+* while `report_connection_established` is suspended on a full channel (inside `TcpTransport::accept`, before the
+  loop exists, `Model/Conn/Accept.lean`): its local `connection_handle` and the clone inside every pending send — a
+  protocol that was already told can upgrade its handle and send commands meanwhile.
+
 `idleExit` (`protocol_set.next()` yields `None`) is enabled iff no strong sender is left and no command
 is queued; `accept` without a strong sender is the no-permit exit. `tokio::select!` picks any ready
 branch, so the loop is a labelled transition system; the driver explores every enabled order (checker
@@ -99,7 +103,12 @@ def HandleSt.strong : HandleSt → Nat
 def TLoop.strong (s : TLoop) : Nat :=
   (s.handles.map HandleSt.strong).sum + (s.cmdQ.map Cmd.permits).sum +
   (s.subs.map (Sub.permits s.ka)).sum +
-  (s.loop.ps.chans.map fun c => c.queue.count .established).sum
+  (s.loop.ps.chans.map fun c => c.queue.count .established).sum +
+  -- `report_connection_established` suspended on a full channel (only inside `TcpTransport::accept`, before the
+  -- loop exists): its local `connection_handle` and the clone inside every pending send are strong
+  (match s.loop.ps.call with
+    | .protoSends .established w _ => w.length + 1
+    | _ => 0)
 
 /-- The loop is at its `select!` (not returned, not suspended inside a report call). -/
 def TLoop.running (s : TLoop) : Bool := s.loop.exited.isNone && s.loop.cont.isNone
